@@ -52,6 +52,11 @@ def oracle_lookup(ctx, record, query, with_overlapping, result, case=None):
         ctx.count("op:lookup_overlapping")
     if len(query.parts) > 1:
         ctx.count("op:lookup_bridging_query")
+    if any(int(part.end) <= int(part.start) for part in query.parts):
+        # a stretch without any base is no area: nothing is stated about what lies "inside" it (the pipeline only asks
+        # this for the empty piece of the extent recorded as C03-K2)
+        ctx.count("skipped:query-with-a-part-without-bases")
+        return
     if query.start < 0:
         # a window reaching before the start of the record (a stretch extended by some bases near the record start):
         # nothing exists there, the window counts from the first base
